@@ -25,8 +25,17 @@ def step (st : Unit) (j : Json) : Unit × Json :=
         let img := chunk (← floatList (← field j "img")) n
         let th ← floatList (← field j "theta")
         if img.length != n then throw "bad image" else
-        let out := if alg == "torch" then radonTorch img th else radonSk img th
+        -- the port as it computes: zero tensor, one row written per loop iteration (= radonTorch: radon_write_loop_refines)
+        let out := if alg == "torch" then radonTorchLoop img th else radonSk img th
         pure (okJson (floatsToJson out.flatten))
+    | "radon_batch" =>
+        -- batched call [B][N][N] -> [B][A][N] through the batched write loop
+        let n ← natField j "n"
+        let b ← natField j "b"
+        let imgs := (chunk (← floatList (← field j "img")) (n * n)).map fun im => chunk im n
+        let th ← floatList (← field j "theta")
+        if imgs.length != b then throw "bad batch" else
+        pure (okJson (floatsToJson ((radonTorchBatchLoop imgs th).flatten.flatten)))
     | "filter" =>
         let size ← natField j "size"
         let name ← strField j "name"
